@@ -919,6 +919,7 @@ class Gen(object):
                         self.maths[c].append(['eq', ['diff', ci(v['name']), ci(lt['name'])], rhs])
                 owned.append((c, v))
         self.add_pingpong(owned)
+        self.add_zeros(owned)
         if self.case_names:
             self.add_case_pairs(owned)
         # cmeta ids
@@ -944,6 +945,29 @@ class Gen(object):
                     self.cm += 1
                     nv['cmeta'] = 'id%d' % self.cm
         return self.document()
+
+    def add_zeros(self, owned):
+        """literals 0 and -0 (also 0.0 / -0.0) in the SAME units in different equations and components, and a literal
+        written twice inside one equation; nothing else uses these variables (no division by them)"""
+        r = self.rng
+        u = r.choice(self.pool[r.choice(['V', 'T', 'M', 'A', 'L'])])
+        ca = r.choice(self.names)
+        cb = r.choice([c for c in self.names if c != ca] or [ca])
+        plan = [(ca, 'zpos', '0'), (cb, 'zneg', '-0'), (ca, 'zneg2', '-0.0'), (cb, 'zpos2', '0.0')]
+        r.shuffle(plan)
+        made = {}
+        for c, name, lit in plan:
+            v = self.new_var(c, name, u, 'comp')
+            self.maths[c].append(['eq', ci(v['name']), cn(lit, u)])
+            owned.append((c, v))
+            made[name] = (c, v)
+        c, y = made['zneg']
+        k = r.choice(['2', '3', '0.5'])
+        z = self.new_var(c, 'zsq', u, 'comp')
+        self.maths[c].append(['eq', ci(z['name']), ['times', ci(y['name']), cn(k, 'dimensionless'), cn(k, 'dimensionless')]])
+        owned.append((c, z))
+        for cc in {ca, cb}:
+            r.shuffle(self.maths[cc])
 
     def add_pingpong(self, owned):
         """two unrelated unit-changing connections between the SAME pair of units in OPPOSITE directions (u1 -> u2 for
